@@ -92,6 +92,8 @@ def scan(facts):
                         if rv.get('k') in ('addr_of', 'raw') and (rv.get('place') or {}).get('p'):
                             wr(bfn, rv['place'], False)
                         if rv.get('k') == 'aggregate' and rv.get('agg') == 'adt':
+                            if fn.get('derived') and fn['path'].endswith('as core::clone::Clone>::clone'):
+                                continue    # a derived field-wise clone copies a complete object: relations inside it survive
                             ctors.setdefault(rv.get('path'), set()).add(fn['path'])
                     t = b.get('term') or {}
                     if t.get('k') == 'call' and (t.get('dest') or {}).get('p'):
